@@ -48,6 +48,8 @@ theorem NDInv.step {s s' : State} {st : Step} (hi : NDInv s) (h : step? s st = s
   | gc a => exact ⟨hi.cur, hi.next, hi.retiring⟩
   | accept t g a => exact ⟨hi.cur, hi.next, hi.retiring⟩
   | complete t g => exact ⟨hi.cur, hi.next, hi.retiring⟩
+  | adminReplace g a => exact ⟨hi.cur, hi.next, hi.retiring⟩
+  | adminClose g a => exact ⟨hi.cur, hi.next, hi.retiring⟩
   | cb k g => cases k <;> exact ⟨hi.cur, hi.next, hi.retiring⟩
 
 theorem Reach.nd {s : State} (h : Reach s) : NDInv s := by
@@ -434,6 +436,8 @@ theorem keeps_append (a : Addr) : ∀ (xs ys : List Step), keeps a (xs ++ ys) = 
     | gc b => simp [keeps, ih]
     | accept t g b => simp [keeps, ih]
     | complete t g => simp [keeps, ih]
+    | adminReplace g b => simp [keeps, ih]
+    | adminClose g b => simp [keeps, ih]
 
 theorem keeps_replicate_cb (a : Addr) (k : CbKind) (g : Gen) : ∀ n, keeps a (List.replicate n (.cb k g)) = true
   | 0 => rfl
